@@ -319,6 +319,10 @@ impl Ctx {
 
     /// true when a sub-check should run (`--sub name` restricts a run to one sub-check; debugging aid)
     pub fn want(&self, sub: &str) -> bool {
+        if self.violations >= 5 {
+            // enough reproductions; do not spend the budget re-finding the same defect
+            return false;
+        }
         self.only_sub.as_deref().map(|s| s == sub).unwrap_or(true)
     }
 
@@ -497,13 +501,23 @@ impl Ctx {
         S::Value: Hash + Serialize + Clone + Debug,
         F: Fn(&S::Value) -> CaseResult,
     {
+        self.prop_cfg(name, kind, cases, 50_000, strat, f)
+    }
+
+    /// `prop` with an explicit cap on shrink iterations (expensive or schedule-dependent cases).
+    pub fn prop_cfg<S, F>(&mut self, name: &str, kind: &str, cases: u64, max_shrink: u32, strat: S, f: F)
+    where
+        S: Strategy,
+        S::Value: Hash + Serialize + Clone + Debug,
+        F: Fn(&S::Value) -> CaseResult,
+    {
         if !self.want(name) {
             return;
         }
         let config = Config {
             cases: cases as u32,
             failure_persistence: None,
-            max_shrink_iters: 50_000,
+            max_shrink_iters: max_shrink,
             max_local_rejects: 1_000_000,
             max_global_rejects: 1_000_000,
             ..Config::default()
@@ -551,7 +565,7 @@ impl Ctx {
                 self.evaluations += 1;
                 let v = match guarded(|| f(&minimal)) {
                     Err(v) => v,
-                    Ok(_) => Violation::new("flaky", "shrunk case passes when re-run: nondeterministic check or library state"),
+                    Ok(_) => Violation::new("not-reproduced", "the shrunk case failed during the search but passed when re-run once more (schedule- or state-dependent failure)"),
                 };
                 self.violation(name, kind, &minimal, &v);
             }
